@@ -12,7 +12,7 @@ def plan(tier, seed):
     groups = []
     for fs in sets:
         hs = fmt if "F" in fs else base
-        groups.append(KGroup(fs, hs, timeout=600, jobs=5, mem_gb=8, label="features " + fs))
+        groups.append(KGroup(fs, hs, timeout=600, jobs=5, mem_gb=14, label="features " + fs))
     return {
         "kani": groups,
         "functions_encoded": ["lexical_util::format::format_error_impl (via hook verif_format_error)", "NumberFormatBuilder::{rebuild,build_unchecked,build_strict, setters}",
